@@ -273,7 +273,7 @@ open P2P.Proofs.Stages in
 /-- **The residue ends with exactly the atoms of the definition it is named after**, for every
 input: any of the 230 combinations, any input name list (duplicate-free and free of pseudo-atom /
 OP1 / OP2 names once the terminus patches are applied), with or without `remove_hydrogens`: after
-PEPTIDE and the terminus patches, `repair_heavy`, the state patch and `add_hydrogens` the names are
+PEPTIDE (inside a chain) or the terminus patches, `repair_heavy`, the state patch and `add_hydrogens` the names are
 a permutation of the named definition's atoms. This is the fact C02's `charge_table` (stated per
 named definition) needs to speak about residues of a run. -/
 theorem stages_reach_named_definition (c : Combo) (hc : c ∈ combos) (r : Resolved)
